@@ -9,11 +9,16 @@
  R3 the restricted fault test is (flags & ~EXCEPT_CODE_AUTOMOD) & EXCEPT_DO_NOT_UPDATE_PC in all three, and
     EXCEPT_ACCESS_VIOL carries the DO_NOT_UPDATE_PC bit on the Python and the C side; an unmapped or
     non-permitted emulated access raises EXCEPT_ACCESS_VIOL
+ R4 the per-block attributes that decide whether a fault test is emitted at all over-approximate: mem_write
+    is true for every block with a memory destination, mem_read for every block whose read set (memory
+    included) contains a memory cell; no conjunct or comprehension filter narrows them; the per-instruction
+    attributes accumulate them with |=; nothing else writes them
 """
 import ast
 import re
 
 from sa import cast
+from sa.repo import AnalysisError
 from sa.astutil import walk_body, walk_local, dotted, norm, callee_attr
 from sa.cfg import CFG, node_calls, node_exprs
 from sa.csts import py_constants, c_constants
@@ -24,7 +29,7 @@ LL = "miasm/jitter/llvmconvert.py"
 JP = "miasm/jitter/jitcore_python.py"
 LEVEL_TEXT = ("Ordering rules read from the CFG of the code generators (emitted segments for C, builder calls for "
               "LLVM, direct calls for Python), template rules for the fault exit and the flag mask, constant agreement "
-              "between csts.py and vm_mngr.h. Decides that the commit/test phases cannot be reordered and that the fault "
+              "between csts.py and vm_mngr.h. The attributes that switch the fault tests on are shown to over-approximate the memory accesses of the block. Decides that the commit/test phases cannot be reordered or skipped and that the fault "
               "exit restores PC; does not execute any instruction.")
 ASSUMPTIONS = ["CPython ast; clang macro table", "the LLVM back end is read, never run", "no subclass overrides the phase "
                "methods of CGen (re-checked on every run over miasm/arch/*/jit.py)"]
@@ -293,6 +298,121 @@ def run(ck):
         ok = any(n.get("kind") == "CompoundAssignOperator" and n.get("opcode") == "|=" and "exception_flags" in cast.text_names(n["inner"][0])
                  and cast.const_int(n["inner"][1]) == av for n in cast.walk(f.body))
         ck.ob("R3", "%s:raises-ACCESS_VIOL" % fname, ok, "miasm/jitter/vm_mngr.c", "%s never sets EXCEPT_ACCESS_VIOL" % fname)
+
+    _attr_rules(ck, cg)
+
+
+def _is_mem_test(e, var):
+    """isinstance(var, ExprMem) / var.is_mem()"""
+    if isinstance(e, ast.Call) and dotted(e.func) == "isinstance" and len(e.args) == 2 and norm(e.args[0]) == var:
+        t = e.args[1]
+        names = [norm(x) for x in t.elts] if isinstance(t, ast.Tuple) else [norm(t)]
+        return any(x.split(".")[-1] == "ExprMem" for x in names)
+    if isinstance(e, ast.Call) and isinstance(e.func, ast.Attribute) and e.func.attr == "is_mem" and norm(e.func.value) == var:
+        return True
+    return False
+
+
+def _covers_mem(e, var):
+    """Is `e` true whenever var is an ExprMem?  Accepts the plain test and disjunctions containing it."""
+    if _is_mem_test(e, var):
+        return True
+    if isinstance(e, ast.BoolOp) and isinstance(e.op, ast.Or):
+        return any(_covers_mem(v, var) for v in e.values)
+    return False
+
+
+def _attr_rules(ck, cg):
+    from sa.astutil import Resolver
+    ck.rule("R4", "mem_read / mem_write / set_exception attributes over-approximate the block's memory accesses", floor=7)
+    fn = cg.func("CGen.get_caracteristics")
+    res = Resolver(fn)
+    params = [a.arg for a in fn.args.args]
+    ck.need(len(params) >= 3, "CGen.get_caracteristics: signature changed")
+    blk, att = params[1], params[2]
+    assigns = {}
+    for n in walk_body(fn):
+        if isinstance(n, (ast.Assign, ast.AugAssign)):
+            tgs = n.targets if isinstance(n, ast.Assign) else [n.target]
+            for t in tgs:
+                if isinstance(t, ast.Attribute) and norm(t.value) == att:
+                    assigns.setdefault(t.attr, []).append(n)
+    for flag in ("mem_read", "mem_write", "set_exception"):
+        ck.need(flag in assigns, "CGen.get_caracteristics no longer sets %s.%s" % (att, flag))
+
+    def any_gen(flag):
+        """(element test, loop variable, iterable) of `att.flag = any(<test> for v in <iter>)`; None when the
+        statement has another shape."""
+        sts = assigns[flag]
+        if len(sts) != 1 or not isinstance(sts[0], ast.Assign):
+            return None
+        v = sts[0].value
+        if not (isinstance(v, ast.Call) and dotted(v.func) == "any" and len(v.args) == 1
+                and isinstance(v.args[0], (ast.GeneratorExp, ast.ListComp)) and len(v.args[0].generators) == 1):
+            return None
+        g = v.args[0].generators[0]
+        if not isinstance(g.target, ast.Name):
+            return None
+        return v.args[0].elt, g.target.id, g.iter, g.ifs
+
+    def unwrap_keys(it):
+        # assignblk / assignblk.keys() / viewkeys(assignblk) / iterkeys(assignblk) / list(...)
+        while True:
+            if isinstance(it, ast.Call) and isinstance(it.func, ast.Attribute) and it.func.attr in ("keys", "iterkeys") and not it.args:
+                it = it.func.value
+            elif isinstance(it, ast.Call) and dotted(it.func) in ("viewkeys", "iterkeys", "list", "tuple", "set", "sorted") and len(it.args) == 1:
+                it = it.args[0]
+            else:
+                return it
+
+    # mem_write
+    g = any_gen("mem_write")
+    if g is None:
+        ck.undet("R4", "CGen.get_caracteristics:mem_write", "not of the form any(<test> for dst in assignblk)")
+        raise AnalysisError("CGen.get_caracteristics: the computation of %s.mem_write has a shape the extractor does not read" % att)
+    elt, var, it, ifs = g
+    it = unwrap_keys(res.expand_node(it))
+    ck.ob("R4", "CGen.get_caracteristics:mem_write:domain", norm(it) == blk and not ifs, cg.where(assigns["mem_write"][0]),
+          "mem_write is computed over `%s`%s instead of every destination of the block: a store outside that domain gets "
+          "no write-fault test" % (norm(it)[:60], " with filter(s) %s" % [norm(i) for i in ifs] if ifs else ""))
+    ck.ob("R4", "CGen.get_caracteristics:mem_write:covers-every-store", _covers_mem(elt, var), cg.where(assigns["mem_write"][0]),
+          "mem_write is `%s`: it is not implied by `isinstance(%s, ExprMem)`, so some block storing to memory gets no "
+          "fault test between its memory commit and its register commit" % (norm(elt)[:120], var))
+    # mem_read
+    g = any_gen("mem_read")
+    if g is None:
+        raise AnalysisError("CGen.get_caracteristics: the computation of %s.mem_read has a shape the extractor does not read" % att)
+    elt, var, it, ifs = g
+    it = res.expand_node(it)
+    dom_ok = isinstance(it, ast.Call) and isinstance(it.func, ast.Attribute) and it.func.attr == "get_r" and norm(it.func.value) == blk \
+        and any(k.arg == "mem_read" and isinstance(k.value, ast.Constant) and k.value.value is True for k in it.keywords) and not ifs
+    ck.ob("R4", "CGen.get_caracteristics:mem_read:domain", dom_ok, cg.where(assigns["mem_read"][0]),
+          "mem_read is computed over `%s`, not over %s.get_r(mem_read=True): memory cells are not part of that read set"
+          % (norm(it)[:80], blk))
+    ck.ob("R4", "CGen.get_caracteristics:mem_read:covers-every-load", _covers_mem(elt, var), cg.where(assigns["mem_read"][0]),
+          "mem_read is `%s`: not implied by `isinstance(%s, ExprMem)`" % (norm(elt)[:120], var))
+    # accumulation per instruction
+    ga = cg.func("CGen.get_attributes")
+    for flag in ("mem_read", "mem_write", "set_exception"):
+        acc = [n for n in walk_body(ga) if isinstance(n, ast.AugAssign) and isinstance(n.op, ast.BitOr)
+               and isinstance(n.target, ast.Attribute) and n.target.attr == flag
+               and isinstance(n.value, ast.Attribute) and n.value.attr == flag]
+        ck.ob("R4", "CGen.get_attributes:accumulates:%s" % flag, bool(acc), cg.where(ga),
+              "the per-instruction attribute %s is not the union (|=) of the per-block attributes" % flag)
+    # who writes the attributes: Attributes.__init__, get_caracteristics, get_attributes only
+    allowed = set(["Attributes.__init__", "CGen.get_caracteristics", "CGen.get_attributes"])
+    for rel in ck.repo.pyfiles("miasm/jitter") + ck.repo.pyfiles("miasm/arch"):
+        if not (rel.startswith("miasm/jitter/") or rel.endswith("/jit.py")):
+            continue
+        m = ck.repo.mod(rel)
+        for q, f in sorted(m.funcs.items()):
+            for n in walk_body(f):
+                if isinstance(n, (ast.Assign, ast.AugAssign)):
+                    tgs = n.targets if isinstance(n, ast.Assign) else [n.target]
+                    for t in tgs:
+                        if isinstance(t, ast.Attribute) and t.attr in ("mem_read", "mem_write", "set_exception") and not (rel == CG and q in allowed):
+                            ck.ob("R4", "%s:%s:writes-%s" % (rel, q, t.attr), False, m.where(n),
+                                  "%s overwrites the attribute %s outside the three functions that compute it" % (q, t.attr))
 
 
 def _class_const(mod, cls, name):
